@@ -102,6 +102,7 @@ func (w *Worker) runSeq(seq []Row, idx int, slowReqCheck bool) (mm *Mismatch) {
 		return fail("infra", Row{}, "dial: %v", err)
 	}
 	var helper *TConn
+	var helperSince time.Time
 	var subTopic, subChan string
 	defer func() {
 		t.Close()
@@ -281,6 +282,7 @@ func (w *Worker) runSeq(seq []Row, idx int, slowReqCheck bool) (mm *Mismatch) {
 					return fail("infra", r, "helper consumer got no message: %v", err)
 				}
 				g.Other = helper.Held[0]
+				helperSince = time.Now()
 			}
 		}
 		if r.Cmd.Op == "REQ" && r.Frame == "none" && r.Cmd.A == "held" {
@@ -330,6 +332,20 @@ func (w *Worker) runSeq(seq []Row, idx int, slowReqCheck bool) (mm *Mismatch) {
 				return fail("reqdefer", last, "channel has deferred_count=%d (depth %d, in flight %d) after %d REQ with a timeout of minutes (out-of-range timeouts are clamped to max-req-timeout)",
 					c.Deferred, c.Depth, c.InFlight, deferred)
 			}
+		}
+	}
+	// ---- the other consumer of the same channel is untouched by whatever this connection did: it is still
+	// connected and still owns its message (its TOUCH succeeds silently; only the barrier is answered)
+	if helper != nil && g.Other != nil && time.Since(helperSince) < 10*time.Second {
+		helper.Send(append([]byte("TOUCH "+string(g.Other)+"\n"), pokeTouch...), false)
+		f, err := helper.Next(readDeadline)
+		switch {
+		case err == errTimeout:
+			return fail("timeout", last, "the other consumer got no answer to its barrier")
+		case err != nil:
+			return fail("bystander", last, "the other consumer of the channel lost its connection: %v", err)
+		case !isPokeAnswer(f):
+			return fail("bystander", last, "the other consumer of the channel no longer owns its message: %q", trunc(f.data))
 		}
 	}
 	// ---- end of sequence: nothing else may be in the pipe, and an open connection still works
@@ -510,6 +526,7 @@ type job struct {
 type ReplayReport struct {
 	Nodes        int                 `json:"nodes"`
 	Sequences    int                 `json:"sequences"`
+	Replayed     int                 `json:"replayed"`
 	Runs         int64               `json:"runs"`
 	Commands     int64               `json:"commands"`
 	RowsCovered  int                 `json:"rows_covered"`
@@ -538,6 +555,8 @@ func cmdReplay(args []string) int {
 	report := fs.String("report", "", "report file")
 	scratch := fs.String("scratch", ".", "scratch directory")
 	only := fs.Int("only", -1, "replay only this sequence index")
+	sampleMod := fs.Int("sample-mod", 1, "replay only sequences with index % mod == rem (the walk still covers all)")
+	sampleRem := fs.Int("sample-rem", 0, "see --sample-mod")
 	fs.Parse(args)
 	t0 := time.Now()
 	tab, err := LoadTable(*rowsPath)
@@ -640,13 +659,17 @@ func cmdReplay(args []string) int {
 			}(er, w)
 		}
 	}
-	nseq := 0
+	nseq, replayed := 0, 0
 	nodes, err := tab.Walk(*fine, func(seq []Row) {
 		idx := nseq
 		nseq++
 		if *only >= 0 && idx != *only {
 			return
 		}
+		if *sampleMod > 1 && idx%*sampleMod != *sampleRem%*sampleMod {
+			return
+		}
+		replayed++
 		for _, r := range seq {
 			covered[r.Key()] = true
 		}
@@ -670,7 +693,7 @@ func cmdReplay(args []string) int {
 	if err != nil {
 		return die(err)
 	}
-	rep.Nodes, rep.Sequences, rep.RowsCovered = nodes, nseq, len(covered)
+	rep.Nodes, rep.Sequences, rep.Replayed, rep.RowsCovered = nodes, nseq, replayed, len(covered)
 
 	// ---- after everything: daemons alive, bystanders unaffected, no topic with an invalid name
 	for _, er := range runs {
